@@ -236,7 +236,9 @@ func genBytes(t *rapid.T) string {
 }
 
 var hostileLexemes = []string{"a", "b", "\"q\"", "0", "-1", "9223372036854775807", "-9223372036854775808", "9223372036854775808", "*", ".", "[", "]", "[]", "[?", "(", ")", "{", "}", ",", ":",
-	"==", "!=", "<", "<=", ">", ">=", "||", "&&", "|", "!", "&", "@", "`1`", "`[1,2]`", "'r'", "`", "'", "\"", "\\", "-", "=", "#", "\u0080", "é", "\x00", "\xff", "\xc3", "abs", "sort_by", "merge", "contains", "f", "::", "[::", "[-", "`{`", "`\"`", "'\\''"}
+	"==", "!=", "<", "<=", ">", ">=", "||", "&&", "|", "!", "&", "@", "`1`", "`[1,2]`", "'r'", "`", "'", "\"", "\\", "-", "=", "#", "\u0080", "é", "\x00", "\xff", "\xc3", "abs", "sort_by", "merge", "contains", "f", "::", "[::", "[-", "`{`", "`\"`", "'\\''",
+	// valid JSON texts that a float64 cannot hold, and other literals that decode with an error other than a syntax error
+	"`1e999`", "`-1e999`", "`[1,1e999]`", "`{\"a\":1e999}`", "`1e-999`", "`123456789012345678901234567890123456789012345678901234567890123456789012345678901234567890123456789012345678901234567890123456789012345678901234567890123456789012345678901234567890123456789012345678901234567890123456789012345678901234567890123456789012345678901234567890123456789012345678901234567890123456789012345678901234567890`", "`true `", "` null`", "`false\n`", "`\"\\ud800\"`"}
 
 var escapePieces = []string{`\u`, `\u1`, `\u12`, `\u123`, `\u1234`, `\ud800`, `\udc00\ud800`, `\x`, `\"`, `\\`, `\`, `\'`, "\\`", `\/`, `\n`, "a", "é", " ", "1", "{", "[", ":", ",", "\t", "\x00", "\x7f", "null", "tru", "\xff", "\xff\xff", "\x80\x80\x80", "\xc3", "\xe2\x82"}
 
